@@ -4,6 +4,7 @@ def b_DynamicObstacle_create_trajectory_node : CR.SrcW.Builder where
   kind := .node
   tag := "trajectory"
   xsd := "dynamicObstacle/trajectory"
+  path := []
   parent := ""
   attrs := []
   gattrs := []
@@ -17,7 +18,8 @@ def b_DynamicObstacle_create_trajectory_node_state : CR.SrcW.Builder where
   key := "DynamicObstacleXMLNode._create_trajectory_node/state"
   kind := .node
   tag := "state"
-  xsd := ""
+  xsd := "dynamicObstacle/trajectory"
+  path := ["state"]
   parent := "DynamicObstacleXMLNode._create_trajectory_node"
   attrs := []
   gattrs := []
